@@ -17,6 +17,16 @@ Variable spn : nat -> nat -> span.
 
 Definition ust_at (p : nat) : N := fold_left (fun h t => on_tok t h) (firstn p toks) 0%N.
 
+(* the position after the longest run of tokens in [ws] starting at p *)
+Fixpoint skip_ws (k : nat) (ws : list tok) (p : nat) : nat :=
+  match k with
+  | 0 => p
+  | S k' => match nth_error toks p with
+            | Some t => if memN t ws then skip_ws k' ws (S p) else p
+            | None => p
+            end
+  end.
+
 Definition reg := option lerr.
 Definition sok := (val * nat * list lerr)%type.
 Definition sres := (option sok * reg)%type.
@@ -181,6 +191,21 @@ Fixpoint it_snext (i : IT) (ctx : env) (its : itst) (p : nat) (r : reg) : option
       | Some (Some (v, p1, e1), r1) => Some (SSome v p1 e1, SFlag true, r1)
       | Some (None, r1) => Some (SNone p [], SFlag true, r1)
       | None => None
+      end
+  | IIntoIter a, SInto None =>
+      match run a ctx p r with
+      | Some (Some (v, p1, e1), r1) =>
+          match val_items v with
+          | [] => Some (SNone p1 e1, SInto (Some []), r1)
+          | x :: l => Some (SSome x p1 e1, SInto (Some l), r1)
+          end
+      | Some (None, r1) => Some (SErr, its, r1)
+      | None => None
+      end
+  | IIntoIter _, SInto (Some l) =>
+      match l with
+      | [] => Some (SNone p [], its, r)
+      | x :: l' => Some (SSome x p [], SInto (Some l'), r)
       end
   | _, _ => None
   end.
@@ -487,8 +512,8 @@ Fixpoint sem (n : nat) (g : G) (ctx : env) (p : nat) (a : reg) {struct n} : opti
       | None => None
       end
   | CollectExactly k i =>
-      match k, its_fail (mk_iter i ctx) with
-      | 0, Some e => run (TryMap PFalse FId e Empty) ctx p a       (* a failing try_configure fails even when no item is asked for *)
+      match k, it_eager i ctx with
+      | 0, Some g => run g ctx p a       (* a failing try_configure fails, into_iter's parser runs, even when no item is asked for *)
       | _, _ =>
       match sdrive run (S k) i ctx (mk_iter i ctx) (Some k) [] [] p a with
       | Some (Some (items, false, p1, e1), a1) => Some (Some (VList (rev (map sitem_val items)), p1, e1), a1)
@@ -624,6 +649,11 @@ Fixpoint sem (n : nat) (g : G) (ctx : env) (p : nat) (a : reg) {struct n} : opti
       match run x ctx p a with
       | Some (None, Some (_, e)) => Some (None, ee None p e)
       | Some (None, None) => None
+      | res => res
+      end
+  | Padded ws x =>
+      match run x ctx (skip_ws (length toks) ws p) a with
+      | Some (Some (v, p1, e1), a1) => Some (Some (v, skip_ws (length toks) ws p1, e1), a1)
       | res => res
       end
   end
